@@ -3,16 +3,16 @@ planner (C19), the query engine (C07), the collector (C09), aggregations (C16)
 and layout independence (C08).  Same contract as the core checks."""
 import glob, json, os, re, shutil, subprocess, sys, time
 import vlib
-from vlib import log, Inconclusive, VERIF, SPEC, HARNESS, GOENV
+from vlib import log, Inconclusive, VERIF, SPEC, HARNESS, GOENV, OUTROOT
 
 SEQ_NOTE = ('Trusted: TLC; the Go harness that builds real objects from TLC-generated vectors / records real calls; strace (C13). '
             'Bounded: small-scope vectors (sizes in the evidence rule), not all inputs.')
 
 
 def go_build(sd, pkg, name):
-    shutil.copy('/repo/go.sum', os.path.join(HARNESS, 'go.sum'))
+    hd = vlib.harness_dir(sd)
     binp = os.path.join(sd, name)
-    p = subprocess.run(['go1.26.8', 'build', '-tags', 'verif', '-o', binp, pkg], cwd=HARNESS, env=GOENV,
+    p = subprocess.run(['go1.26.8', 'build', '-tags', 'verif', '-o', binp, pkg], cwd=hd, env=GOENV,
                        stdout=subprocess.PIPE, stderr=subprocess.STDOUT, text=True)
     if p.returncode != 0:
         raise Inconclusive('build of %s failed:\n%s' % (pkg, p.stdout[-3000:]))
@@ -20,9 +20,9 @@ def go_build(sd, pkg, name):
 
 
 def go_test_build(sd, pkg, name):
-    shutil.copy('/repo/go.sum', os.path.join(HARNESS, 'go.sum'))
+    hd = vlib.harness_dir(sd)
     binp = os.path.join(sd, name)
-    p = subprocess.run(['go1.26.8', 'test', '-tags', 'verif', '-c', '-o', binp, pkg], cwd=HARNESS, env=GOENV,
+    p = subprocess.run(['go1.26.8', 'test', '-tags', 'verif', '-c', '-o', binp, pkg], cwd=hd, env=GOENV,
                        stdout=subprocess.PIPE, stderr=subprocess.STDOUT, text=True)
     if p.returncode != 0:
         raise Inconclusive('build of %s failed:\n%s' % (pkg, p.stdout[-3000:]))
@@ -45,12 +45,12 @@ def run_trace_spec(sd, tag, module, cfg, tracefile, extra_modules=(), timeout=90
     ok = done is not None and int(done.group(1)) == nlines and 'No error has been found' in out
     st, tr = vlib.tlc_stats(out)
     if not ok:
-        open(os.path.join(VERIF, 'evidence', 'last-trace-failure-%s.txt' % tag), 'w').write(out[-100000:])
+        open(os.path.join(OUTROOT, 'evidence', 'last-trace-failure-%s.txt' % tag), 'w').write(out[-100000:])
     return dict(ok=ok, viols=viols, events=nlines, states=st, transitions=tr, tail=out[-2500:])
 
 
 def save_simple_replay(prop, seed, files, meta):
-    d = os.path.join(VERIF, 'replays', prop, '%d-%s' % (int(time.time()), seed))
+    d = os.path.join(OUTROOT, 'replays', prop, '%d-%s' % (int(time.time()), seed))
     os.makedirs(d, exist_ok=True)
     for name, path in files.items():
         if os.path.exists(path):
@@ -216,7 +216,7 @@ def probe_check(prop, tier, seed, sd, t0, probe_pkg, mc, trace_module, trace_cfg
         j = line - 1
         while not selfcontained and j > 0 and not any(b in lines[j] for b in boundaries):
             j -= 1
-        d = os.path.join(VERIF, 'replays', prop, '%d-%s' % (int(time.time()), seed))
+        d = os.path.join(OUTROOT, 'replays', prop, '%d-%s' % (int(time.time()), seed))
         os.makedirs(d, exist_ok=True)
         open(os.path.join(d, 'trace.ndjson'), 'w').write((lines[j] + '\n' if j != line - 1 else '') + lines[line - 1] + '\n')
         json.dump(dict(property=prop, clause=c, line=line, kind='probe', module=trace_module, cfg=trace_cfg, extra=list(extra_modules)), open(os.path.join(d, 'meta.json'), 'w'), indent=1)
@@ -308,7 +308,7 @@ def offline_subcheck(prop, tier, seed, sd, prefixes):
         e = line
         while e < len(lines) and '"ev":"Reset"' not in lines[e]:
             e += 1
-        d = os.path.join(VERIF, 'replays', prop, '%d-%s-offline' % (int(time.time()), seed))
+        d = os.path.join(OUTROOT, 'replays', prop, '%d-%s-offline' % (int(time.time()), seed))
         os.makedirs(d, exist_ok=True)
         open(os.path.join(d, 'trace.ndjson'), 'w').write('\n'.join(lines[j:e]) + '\n')
         json.dump(dict(property=prop, clause=c, line=line - j, kind='probe', module='OfflineTrace.tla', cfg='OfflineTrace.cfg', extra=['Offline.tla']), open(os.path.join(d, 'meta.json'), 'w'), indent=1)
@@ -330,9 +330,72 @@ def offline_subcheck(prop, tier, seed, sd, prefixes):
     return rc, cov
 
 
+def search_subcheck(prop, tier, seed, sd, prefixes):
+    """Many different real searches on ONE reader per corpus (cmd/searchprobe -rich), each executed twice
+    (all matches, then top-N); SearchTrace.tla judges both against Search!Eval and against each other.
+    Used by C04: a reader must give the same answer to the same search whatever ran on it before."""
+    probe = go_build(sd, './cmd/searchprobe', 'searchprobe-sub')
+    tf = os.path.join(sd, 'searchsub.ndjson')
+    n = 150 if tier == 'quick' else 1500
+    p = subprocess.run(['timeout', '1500', probe, '-out', tf, '-tier', tier, '-seed', str(seed), '-rich', str(n)], stdout=subprocess.PIPE, stderr=subprocess.STDOUT, text=True)
+    if p.returncode != 0:
+        out = p.stdout
+        tail = out[:2000] + '\n...\n' + out[-3000:]
+        if 'github.com/blugelabs/bluge' in out and ('panic' in out or 'fatal error' in out) and 'harness:' not in out:
+            d = save_simple_replay(prop, seed, {'trace.ndjson': tf}, dict(property=prop, note='a search on an open reader panicked', log=tail))
+            log('VIOLATION property=%s replay=%s' % (prop, d))
+            log('  a search on an open reader panicked')
+            return 1, dict(note='search probe died', log=tail[-600:], violations=1)
+        raise Inconclusive('searchprobe failed: %s' % tail)
+    lines = open(tf).read().splitlines()
+    chunks, cur = [], []
+    for l in lines:
+        if '"ev":"corpus"' in l and len(cur) >= 1500:
+            chunks.append(cur)
+            cur = []
+        cur.append(l)
+    if cur:
+        chunks.append(cur)
+    import concurrent.futures as cf
+
+    def one(i):
+        cf_ = os.path.join(sd, 'sschunk-%d.ndjson' % i)
+        open(cf_, 'w').write('\n'.join(chunks[i]) + '\n')
+        return run_trace_spec(sd, 'searchsub-%d' % i, 'SearchTrace.tla', 'SearchTrace.cfg', cf_, extra_modules=('Search.tla',), timeout=1800)
+    with cf.ThreadPoolExecutor(max_workers=12) as ex:
+        results = list(ex.map(one, range(len(chunks))))
+    viols, offset = [], 0
+    for i, res in enumerate(results):
+        if not res['ok']:
+            raise Inconclusive('SearchTrace did not consume chunk %d:\n%s' % (i, res['tail']))
+        viols += [(c, offset + line, k) for c, line, k in res['viols']]
+        offset += len(chunks[i])
+    mine = [v for v in viols if any(v[0].startswith(x) for x in prefixes)]
+    rc = 0
+    if mine:
+        c, line, _ = mine[0]
+        j = line - 1
+        while j > 0 and '"ev":"corpus"' not in lines[j]:
+            j -= 1
+        d = os.path.join(OUTROOT, 'replays', prop, '%d-%s-search' % (int(time.time()), seed))
+        os.makedirs(d, exist_ok=True)
+        open(os.path.join(d, 'trace.ndjson'), 'w').write(lines[j] + '\n' + lines[line - 1] + '\n')
+        json.dump(dict(property=prop, clause=c, line=2, kind='probe', module='SearchTrace.tla', cfg='SearchTrace.cfg', extra=['Search.tla']), open(os.path.join(d, 'meta.json'), 'w'), indent=1)
+        log('VIOLATION property=%s replay=%s' % (prop, d))
+        log('  %s at line %d: %s' % (c, line, lines[line - 1][:400]))
+        rc = 1
+    nq = sum(1 for l in lines if '"ev":"q"' in l)
+    cov = dict(searches=nq, readers=sum(1 for l in lines if '"ev":"corpus"' in l), violations=len(mine),
+               other_property_clauses=len([v for v in viols if v not in mine]),
+               rule='per generated corpus ONE reader answers 40 different query trees, each twice (all matches, then top-N); a reader whose internal state (recycled iterators, '
+                    'cached postings) leaks from one search into the next gives different or wrong answers')
+    log('searches on held readers: %d searches on %d readers, %d violations' % (nq, cov['readers'], len(mine)))
+    return rc, cov
+
+
 def merge_sub_evidence(prop, key, cov, rc):
     """Adds the coverage of a sub-check to the evidence file written by the main check."""
-    f = os.path.join(VERIF, 'evidence', prop + '.json')
+    f = os.path.join(OUTROOT, 'evidence', prop + '.json')
     ev = json.load(open(f))
     ev['coverage'][key] = cov
     if rc:
